@@ -515,6 +515,87 @@ def finer_grid_cases(res, rng, tier):
     return c1, c2, c3
 
 
+def copula_cases(res, rng, tier):
+    """MarkovChainLevyCopula (2-d, independent copula of two step models) through simulate_one_path: one product
+    interval (several intervals fail: F-C15-2 / F-C15-4); every component is compared with the 1-d chain model"""
+    import numpy as np
+    from stepmeasure import make_grid, step_spec, build_copula_model
+    from rpylib.process.markovchain.markovchainlevycopula import MarkovChainLevyCopula
+    from rpylib.distribution.sampling import SamplingMethod
+    fixed_cases, jump_cases = [], []
+    d = 2
+    for it in range(18 if tier == "quick" else 150):
+        mode = ["jump", "cap", "fixed"][it % 3]
+        n_int = 2 if it % 9 == 8 else 1
+        dt = rng.choice([0.25, 1.0, 4.0]) if mode == "fixed" else rng.choice([0.5, 1.0, 2.0])
+        T = dt * n_int
+        eps = rng.choice([T / 8, dt / 4, 3 * dt / 16, T, dt / 2]) if mode == "cap" else None
+        counts, offsets = gen_script(rng, n_int, dt, allow_empty=(n_int == 1))
+        if n_int == 2:
+            counts, offsets = [2, 1], [[dt / 4, dt / 2], [dt / 4]]
+        ctx = {"kind": "copula", "mode": mode, "intervals": n_int, "dt": dt, "T": T, "eps": eps, "counts": counts, "offsets": offsets}
+        try:
+            spec = step_spec(the_measure(), a=0.25, sigma=0.5)
+            proc = MarkovChainLevyCopula(build_copula_model([spec, spec], "independent"), make_grid(AXIS, 6, Fraction(1, 4), dimension=d),
+                                         SamplingMethod.BINARYSEARCHTREEADAPTED)
+            prod = make_product(n_int + 1, T, stochastic=(mode != "fixed"))
+            proc.initialisation(prod, max_step_epsilon=eps) if eps is not None else proc.initialisation(prod)
+            raw = [[tuple(rng.choice([-3, -2, -1, 0, 1, 2, 3]) for _ in range(d)) for _ in range(n)] for n in counts]
+            sizes = [[[float(AXIS[6 + inc[k]]) for inc in r] for r in raw] for k in range(d)]     # per component, per interval
+            ctx["state_increments"] = raw
+            rq = deque(raw)
+            proc.sampling.sample = lambda size, rq=rq: [np.array(x) for x in rq.popleft()]
+            script_process(proc, counts, offsets)
+            ws = tags(rng, 400)
+            with Patch(ws) as pt:
+                proc.pre_computation(1, prod)
+                sp = proc.simulate_one_path()
+                used = list(pt.used_normals)
+        except Exception as e:  # noqa
+            rp = dict(ctx, error=f"{type(e).__name__}: {e}")
+            if n_int > 1:
+                rp["finding"] = "F-C15-2" if mode == "fixed" else "F-C15-4"
+            report(res, f"MarkovChainLevyCopula.simulate_one_path raises {type(e).__name__} ({mode}, {n_int} interval(s))", rp)
+            continue
+        times = [float(t) for t in sp.jump_times[:]]
+        dif, jmp = np.asarray(sp.diffusion_path, dtype=float), np.asarray(sp.jump_path, dtype=float)
+        if dif.shape != (d, len(times)) or jmp.shape != (d, len(times)):
+            report(res, "copula path: components are not aligned on the returned times", dict(ctx, times=times, shapes=[list(dif.shape), list(jmp.shape)]))
+            continue
+        sq = [float(v) for v in np.sqrt(np.diff(times))]
+        n = len(sq)
+        dm = np.asarray(proc._path_simulation.diffusion_matrix, dtype=float)
+        exact_sq = all(F(s) ** 2 == F(b) - F(a) for s, a, b in zip(sq, times, times[1:]))
+        tol = Fraction(0) if exact_sq else TOL
+        res.count(("copula", mode, n_int, dt, eps, repr(counts), repr(offsets), repr(raw)), nontrivial=sum(counts) >= 1, kind=f"copula {mode}")
+        for k in range(d):
+            sigma = float(dm[k, k])
+            ws_k = used[k * n:(k + 1) * n] if mode != "fixed" else used[k * n:(k + 1) * n]
+            ssw = [F(s) * F(sigma) * F(w) for s, w in zip(sq, ws_k)]
+            flat = [F(v) for r in sizes[k] for v in r]
+            d_, j_ = [float(v) for v in dif[k]], [float(v) for v in jmp[k]]
+            c2 = dict(ctx, component=k)
+            ql = lambda xs: lst([qlit(v) for v in xs])    # noqa
+            if abs(dm[k, 1 - k]) > 0:
+                continue
+            if mode == "fixed":
+                run = [Fraction(0), sum(flat, Fraction(0))]
+                check_path(res, "MarkovChainLevyCopula (fixed dates)", times, d_, j_, T, None, run, ssw, None, c2)
+                fixed_cases.append(f"(true, {ql(sq)}, {qlit(sigma)}, {ql(ws_k)}, {lst([ql(r) for r in sizes[k]])}, {qlit(tol)}, {ql(d_)}, {ql(j_)})")
+            else:
+                jt = [o for offs in offsets for o in offs]
+                cum, acc = [], Fraction(0)
+                for v in flat:
+                    acc += v
+                    cum.append(acc)
+                run = [Fraction(0)] + refined_expectation(jt, cum, times[1:-1]) + [cum[-1] if cum else Fraction(0)]
+                check_path(res, f"MarkovChainLevyCopula ({'jump times' if eps is None else 'jump times, max step'})", times, d_, j_, T, jt, run, ssw, eps, c2)
+                cap = "None" if eps is None else f"(Some {qlit(eps)})"
+                jump_cases.append(f"(true, {cap}, {qlit(T)}, {ql([0.0])}, {lst([ql(offs) for offs in offsets])}, {lst([ql(r) for r in sizes[k]])}, "
+                                  f"{ql(sq)}, {qlit(sigma)}, {ql(ws_k)}, {qlit(tol)}, {ql(times)}, {ql(d_)}, {ql(j_)})")
+    return fixed_cases, jump_cases
+
+
 def copula_fixed_dates_replay(res):
     """F-C15-2: MCLevyCopulaSimulationFixedTimes.project with more than one product date"""
     import numpy as np
@@ -572,6 +653,8 @@ def correspond(res):
     f1, fd, fc = finer_grid_cases(res, rng, tier)
     fixed, jump = single_process_cases(res, rng, tier)
     cfixed, cjump = coupled_cases(res, rng, tier)
+    kfixed, kjump = copula_cases(res, rng, tier)
+    fixed, jump = fixed + kfixed, jump + kjump
     copula_fixed_dates_replay(res)
     groups = [
         ("finer1", "Q * Q * list Q * list Q * list Q * list Q", "finer1_check", f1),
